@@ -175,3 +175,920 @@ Proof.
     apply andb_prop in Hy as [H1 H2]. f_equal; auto.
   - (* ERed *) f_equal; auto. destruct op, op0; try discriminate; reflexivity.
 Qed.
+
+(* ------------------------------------------------------------------------------------------ *)
+(* 4. the invariant relating a node's type to the value the simulator computes                  *)
+Notation strict' := (fun _ : nat => true).
+
+Definition ann_inv (a : ann) : Prop :=
+  0 < aw a /\ (aex a = false -> aint a = true) /\ (aex a = true -> aint a = true -> acv a = None)
+  /\ (aovf a = true -> acv a = None).
+
+Definition val_ok (a : ann) (v : value) : Prop :=
+  match v with
+  | VBits n u => n = aw a /\ wfn n /\ inrange n u /\ aex a = true
+  | VInt z => 0 <= z /\ aint a = true /\ (aovf a = false -> z < 2 ^ aw a)
+              /\ (aex a = false -> forall c, acv a = Some c -> z = c)
+  end.
+
+Definition res_ok (a : ann) (r : res value) : Prop :=
+  match r with Ok v => val_ok a v | Err EValue => False | Err _ => True end.
+
+Definition tmp_ann (w : Z) (ex mi : bool) : ann :=
+  {| aw := w; aex := ex; asig := true; acv := None; amut := true; astr := None; aint := mi; aovf := false |}.
+
+Definition env_ok (E : tenv) (st : state) : Prop :=
+  (forall i w ex mi, ttmp E i = Some (w, ex, mi) ->
+     0 < w /\ (ex = false -> mi = true) /\ forall v, tmpv st i = Some v -> val_ok (tmp_ann w ex mi) v) /\
+  (forall i w, tloop E i = Some w -> 0 < w /\ forall z, loopv st i = Some z -> 0 <= z < 2 ^ w).
+
+Lemma res_ok_bind a r f b :
+  res_ok a r -> (forall v, r = Ok v -> val_ok a v -> res_ok b (f v)) -> res_ok b (bind r f).
+Proof.
+  intros Hr Hf. destruct r as [v|e]; cbn [bind].
+  - apply Hf; auto.
+  - destruct e; cbn in *; auto.
+Qed.
+
+Lemma pow2_le_mono a b : 0 <= a <= b -> 2 ^ a <= 2 ^ b.
+Proof. intros; apply Z.pow_le_mono_r; lia. Qed.
+
+Lemma int_operand_fit n k w : 0 <= k < 2 ^ w -> 0 <= w <= n -> int_operand_ok n k = true.
+Proof.
+  intros Hk Hw. unfold int_operand_ok, vhi. pose proof (pow2_le_mono w n ltac:(lia)). lia.
+Qed.
+
+Definition nodiv (op : binop) : Prop := match op with FloorDiv | Mod => False | _ => True end.
+
+Lemma arith_total op n a b : nodiv op -> exists r, arith op n a b = Ok r.
+Proof. destruct op; cbn; intros H; try contradiction; eauto. Qed.
+
+Lemma bits_binop_bits op n a b : nodiv op -> wfn n -> inrange n a -> inrange n b ->
+  exists r, spec_binop op n a (OBits n b) = Ok (n, r) /\ inrange n r.
+Proof.
+  intros Hop Hn Ha Hb. cbn [spec_binop]. rewrite Z.eqb_refl.
+  destruct (arith_total op n a b Hop) as [r Hr]. rewrite Hr. cbn [bind]. exists r. split; [reflexivity|].
+  exact (arith_range op n a b r Hn Ha Hb Hr).
+Qed.
+
+Lemma bits_binop_int op n a k : nodiv op -> wfn n -> inrange n a -> 0 <= k < 2 ^ n ->
+  exists r, spec_binop op n a (OInt k) = Ok (n, r) /\ inrange n r.
+Proof.
+  intros Hop Hn Ha Hk. cbn [spec_binop]. rewrite (int_operand_fit n k n) by (unfold wfn in *; lia).
+  destruct (arith_total op n a k Hop) as [r Hr]. rewrite Hr. cbn [bind]. exists r. split; [reflexivity|].
+  exact (arith_range op n a k r Hn Ha Hk Hr).
+Qed.
+
+Lemma bits_rbinop_int op n a k : nodiv op -> wfn n -> inrange n a -> 0 <= k < 2 ^ n ->
+  exists r, spec_rbinop op n a (OInt k) = Ok (n, r) /\ inrange n r.
+Proof.
+  intros Hop Hn Ha Hk. cbn [spec_rbinop]. rewrite (int_operand_fit n k n) by (unfold wfn in *; lia).
+  destruct (arith_total op n k a Hop) as [r Hr]. rewrite Hr. cbn [bind]. exists r. split; [reflexivity|].
+  exact (arith_range op n k a r Hn Hk Ha Hr).
+Qed.
+
+Lemma unify_spec la ra ifx cl cr : unify la ra ifx = Some (cl, cr) ->
+  match aex la, aex ra with
+  | true, true => aw la = aw ra
+  | true, false => aw ra <= aw la
+  | false, true => aw la <= aw ra
+  | false, false => True
+  end.
+Proof.
+  unfold unify. destruct (aex la), (aex ra).
+  - destruct (aw la =? aw ra) eqn:E; [lia|discriminate].
+  - destruct (aw la <? aw ra) eqn:E; [discriminate|lia].
+  - destruct (aw ra <? aw la) eqn:E; [discriminate|lia].
+  - auto.
+Qed.
+
+Lemma val_ok_bits a n u : val_ok a (VBits n u) -> aex a = true /\ n = aw a /\ wfn n /\ inrange n u.
+Proof. cbn. tauto. Qed.
+Lemma val_ok_int a z : val_ok a (VInt z) -> 0 <= z /\ aint a = true.
+Proof. cbn. tauto. Qed.
+Lemma val_ok_int_lt a z : val_ok a (VInt z) -> aovf a = false -> 0 <= z < 2 ^ aw a.
+Proof. cbn. intuition. Qed.
+Lemma val_ok_implicit a v : val_ok a v -> aex a = false -> exists z, v = VInt z.
+Proof. destruct v; cbn; [intros (_ & _ & _ & H) H'; congruence|eauto]. Qed.
+Lemma val_ok_cv a z c : val_ok a (VInt z) -> ann_inv a -> acv a = Some c -> z = c.
+Proof.
+  cbn. intros (_ & Hi & _ & Hc) (_ & _ & H3 & _) Hcv.
+  destruct (aex a) eqn:E; [rewrite H3 in Hcv by auto; discriminate|auto].
+Qed.
+
+Lemma max_pow a b : 0 <= a -> 0 <= b -> 2 ^ a <= 2 ^ Z.max a b /\ 2 ^ b <= 2 ^ Z.max a b.
+Proof. intros; split; apply pow2_le_mono; lia. Qed.
+
+(* visit_BinOp, max-width operators *)
+Lemma rule_bin_sound_max op la ra r cl cr va vb :
+  is_shift op = false ->
+  rule_bin strict' op la ra = Some (r, cl, cr) ->
+  ann_inv la -> ann_inv ra -> aovf la = false -> aovf ra = false ->
+  val_ok la va -> val_ok ra vb ->
+  ann_inv r /\ res_ok r (eval_bin op va vb).
+Proof.
+  intros Sh H Ila Ira Ola Ora Va Vb. unfold rule_bin in H. rewrite Sh in H.
+  destruct (is_struct la || is_struct ra || is_div op) eqn:Hd; [discriminate|].
+  assert (Hop : nodiv op) by (destruct op; cbn in *; auto; rewrite !orb_true_r in Hd; discriminate).
+  destruct (unify la ra false) as [[cl' cr']|] eqn:U; [|discriminate].
+  apply unify_spec in U. cbn [andb] in H.
+  pose proof Ila as (Pla & Ila2 & Ila3 & Ila4). pose proof Ira as (Pra & Ira2 & Ira3 & Ira4).
+  destruct (acv la) as [x|] eqn:Cx; [destruct (acv ra) as [y|] eqn:Cy|].
+  - (* constant folding *)
+    destruct (int_fold op x y) as [v|] eqn:F; [|discriminate].
+    destruct (aex la || aex ra) eqn:Ex; [discriminate|]. cbn [andb orb] in H.
+    destruct (v <? 0) eqn:Vn; [discriminate|]. injection H as <- <- <-.
+    apply orb_false_elim in Ex as [Exl Exr].
+    destruct (val_ok_implicit _ _ Va Exl) as [zx ->]. destruct (val_ok_implicit _ _ Vb Exr) as [zy ->].
+    pose proof (val_ok_cv _ _ _ Va Ila Cx) as ->. pose proof (val_ok_cv _ _ _ Vb Ira Cy) as ->.
+    pose proof (val_ok_int _ _ Va) as [_ Ia]. pose proof (val_ok_int _ _ Vb) as [_ Ib].
+    pose proof (lit_width v ltac:(lia)) as (L1 & L2 & _).
+    split.
+    + unfold ann_inv, mk; cbn. rewrite Ia, Ib. repeat split; auto; try lia; try discriminate.
+    + assert (eval_bin op (VInt x) (VInt y) = Ok (VInt v)) as ->.
+      { cbn [eval_bin]. destruct op; cbn in *; try discriminate; try contradiction; congruence. }
+      cbn. rewrite Ia, Ib. repeat split; auto; try lia. intros _ c [= <-]; reflexivity.
+  - (* no folding: right has no value *)
+    revert H. set (mi := aint la && aint ra).
+    destruct (mi && match op with Sub => true | _ => false end) eqn:S3; [discriminate|].
+    intros [= <- <- <-]. split.
+    + unfold ann_inv; cbn. repeat split; try lia; auto.
+      intros Ex. apply orb_false_elim in Ex as [Exl Exr]. unfold mi. rewrite Ila2, Ira2; auto.
+    + destruct va as [n a|zx], vb as [m b|zy].
+      * apply val_ok_bits in Va as (Ea & -> & Wa & Ra). apply val_ok_bits in Vb as (Eb & -> & Wb & Rb).
+        rewrite Ea, Eb in U. cbn [eval_bin to_operand]. rewrite <- U in *.
+        destruct (bits_binop_bits op _ a b Hop Wa Ra Rb) as (r' & -> & Rr). cbn.
+        rewrite Ea. unfold wfn, inrange in *. repeat split; auto; lia.
+      * apply val_ok_bits in Va as (Ea & -> & Wa & Ra). pose proof (val_ok_int_lt _ _ Vb Ora) as Rb.
+        rewrite Ea in U. cbn [eval_bin to_operand].
+        assert (Hk : 0 <= zy < 2 ^ aw la).
+        { pose proof (pow2_le_mono (aw ra) (aw la)). destruct (aex ra); [rewrite U in *; lia|lia]. }
+        destruct (bits_binop_int op _ a zy Hop Wa Ra Hk) as (r' & -> & Rr). cbn.
+        rewrite Ea. assert (Z.max (aw la) (aw ra) = aw la) as -> by (destruct (aex ra); lia).
+        unfold wfn, inrange in *. repeat split; auto; lia.
+      * apply val_ok_bits in Vb as (Eb & -> & Wb & Rb). pose proof (val_ok_int_lt _ _ Va Ola) as Ra.
+        rewrite Eb in U.
+        assert (Hk : 0 <= zx < 2 ^ aw ra).
+        { pose proof (pow2_le_mono (aw la) (aw ra)). destruct (aex la); [rewrite <- U in *; lia|lia]. }
+        assert (Hm : Z.max (aw la) (aw ra) = aw ra) by (destruct (aex la); lia).
+        destruct (bits_binop_int op _ b zx Hop Wb Rb Hk) as (r1 & E1 & Rr1).
+        destruct (bits_rbinop_int op _ b zx Hop Wb Rb Hk) as (r2 & E2 & Rr2).
+        destruct op; cbn in Sh, Hop; try discriminate; try contradiction; cbn [eval_bin];
+          rewrite ?E1, ?E2; cbn; rewrite Hm, Eb, orb_true_r; unfold wfn, inrange in *; repeat split; auto; lia.
+      * pose proof (val_ok_int _ _ Va) as [Pa Ia]. pose proof (val_ok_int _ _ Vb) as [Pb Ib].
+        pose proof (val_ok_int_lt _ _ Va Ola) as Ra. pose proof (val_ok_int_lt _ _ Vb Ora) as Rb.
+        unfold mi in *. rewrite Ia, Ib in *. cbn [andb] in *.
+        pose proof (max_pow (aw la) (aw ra) ltac:(lia) ltac:(lia)) as [M1 M2].
+        pose proof (land_range zx zy (Z.max (aw la) (aw ra)) ltac:(lia) ltac:(lia) ltac:(lia)).
+        pose proof (lor_range zx zy (Z.max (aw la) (aw ra)) ltac:(lia) ltac:(lia) ltac:(lia)).
+        pose proof (lxor_range zx zy (Z.max (aw la) (aw ra)) ltac:(lia) ltac:(lia) ltac:(lia)).
+        destruct op; cbn in Sh, Hop, S3; try discriminate; try contradiction; cbn; repeat split; auto; try lia; try discriminate.
+  - (* no folding: left has no value *)
+    revert H. set (mi := aint la && aint ra).
+    destruct (mi && match op with Sub => true | _ => false end) eqn:S3; [discriminate|].
+    intros [= <- <- <-]. split.
+    + unfold ann_inv; cbn. repeat split; try lia; auto.
+      intros Ex. apply orb_false_elim in Ex as [Exl Exr]. unfold mi. rewrite Ila2, Ira2; auto.
+    + destruct va as [n a|zx], vb as [m b|zy].
+      * apply val_ok_bits in Va as (Ea & -> & Wa & Ra). apply val_ok_bits in Vb as (Eb & -> & Wb & Rb).
+        rewrite Ea, Eb in U. cbn [eval_bin to_operand]. rewrite <- U in *.
+        destruct (bits_binop_bits op _ a b Hop Wa Ra Rb) as (r' & -> & Rr). cbn.
+        rewrite Ea. unfold wfn, inrange in *. repeat split; auto; lia.
+      * apply val_ok_bits in Va as (Ea & -> & Wa & Ra). pose proof (val_ok_int_lt _ _ Vb Ora) as Rb.
+        rewrite Ea in U. cbn [eval_bin to_operand].
+        assert (Hk : 0 <= zy < 2 ^ aw la).
+        { pose proof (pow2_le_mono (aw ra) (aw la)). destruct (aex ra); [rewrite U in *; lia|lia]. }
+        destruct (bits_binop_int op _ a zy Hop Wa Ra Hk) as (r' & -> & Rr). cbn.
+        rewrite Ea. assert (Z.max (aw la) (aw ra) = aw la) as -> by (destruct (aex ra); lia).
+        unfold wfn, inrange in *. repeat split; auto; lia.
+      * apply val_ok_bits in Vb as (Eb & -> & Wb & Rb). pose proof (val_ok_int_lt _ _ Va Ola) as Ra.
+        rewrite Eb in U.
+        assert (Hk : 0 <= zx < 2 ^ aw ra).
+        { pose proof (pow2_le_mono (aw la) (aw ra)). destruct (aex la); [rewrite <- U in *; lia|lia]. }
+        assert (Hm : Z.max (aw la) (aw ra) = aw ra) by (destruct (aex la); lia).
+        destruct (bits_binop_int op _ b zx Hop Wb Rb Hk) as (r1 & E1 & Rr1).
+        destruct (bits_rbinop_int op _ b zx Hop Wb Rb Hk) as (r2 & E2 & Rr2).
+        destruct op; cbn in Sh, Hop; try discriminate; try contradiction; cbn [eval_bin];
+          rewrite ?E1, ?E2; cbn; rewrite Hm, Eb, orb_true_r; unfold wfn, inrange in *; repeat split; auto; lia.
+      * pose proof (val_ok_int _ _ Va) as [Pa Ia]. pose proof (val_ok_int _ _ Vb) as [Pb Ib].
+        pose proof (val_ok_int_lt _ _ Va Ola) as Ra. pose proof (val_ok_int_lt _ _ Vb Ora) as Rb.
+        unfold mi in *. rewrite Ia, Ib in *. cbn [andb] in *.
+        pose proof (max_pow (aw la) (aw ra) ltac:(lia) ltac:(lia)) as [M1 M2].
+        pose proof (land_range zx zy (Z.max (aw la) (aw ra)) ltac:(lia) ltac:(lia) ltac:(lia)).
+        pose proof (lor_range zx zy (Z.max (aw la) (aw ra)) ltac:(lia) ltac:(lia) ltac:(lia)).
+        pose proof (lxor_range zx zy (Z.max (aw la) (aw ra)) ltac:(lia) ltac:(lia) ltac:(lia)).
+        destruct op; cbn in Sh, Hop, S3; try discriminate; try contradiction; cbn; repeat split; auto; try lia; try discriminate.
+Qed.
+
+
+Lemma div_pow_bound x y w : 0 <= x < 2 ^ w -> 0 <= y -> 0 <= x / 2 ^ y < 2 ^ w.
+Proof.
+  intros Hx Hy. assert (0 < 2 ^ y) by (apply pow2_gt0; lia). split.
+  - apply Z.div_pos; lia.
+  - apply Z.div_lt_upper_bound; [lia|]. nia.
+Qed.
+
+(* visit_BinOp, shifts (left-width rule) *)
+Lemma rule_bin_sound_shift op la ra r cl cr va vb :
+  is_shift op = true ->
+  rule_bin strict' op la ra = Some (r, cl, cr) ->
+  ann_inv la -> ann_inv ra -> aovf la = false -> aovf ra = false ->
+  val_ok la va -> val_ok ra vb ->
+  ann_inv r /\ res_ok r (eval_bin op va vb).
+Proof.
+  intros Sh H Ila Ira Ola Ora Va Vb. unfold rule_bin in H. rewrite Sh in H.
+  destruct (is_struct la || is_struct ra || is_div op) eqn:Hd; [discriminate|].
+  assert (Hop : nodiv op) by (destruct op; cbn in *; auto; discriminate).
+  cbn [andb] in H.
+  destruct (aex la && negb (if aex ra then aw ra =? aw la else aw ra <=? aw la)) eqn:ShChk; [discriminate|].
+  pose proof Ila as (Pla & Ila2 & Ila3 & Ila4). pose proof Ira as (Pra & Ira2 & Ira3 & Ira4).
+  assert (Hamt : aex la = true -> if aex ra then aw ra = aw la else aw ra <= aw la).
+  { intros E; rewrite E in ShChk; cbn in ShChk. destruct (aex ra); lia. }
+  destruct (acv la) as [x|] eqn:Cx; [destruct (acv ra) as [y|] eqn:Cy|].
+  - (* constant folding *)
+    destruct (int_fold op x y) as [v|] eqn:F; [|discriminate].
+    destruct (aex la) eqn:Exl; [discriminate|]. cbn [andb orb] in H.
+    destruct (v <? 0) eqn:Vn; [discriminate|]. injection H as <- <- <-.
+    destruct (val_ok_implicit _ _ Va Exl) as [zx ->].
+    pose proof (val_ok_cv _ _ _ Va Ila Cx) as ->.
+    pose proof (val_ok_int _ _ Va) as [_ Ia].
+    pose proof (lit_width v ltac:(lia)) as (L1 & L2 & _).
+    split.
+    + unfold ann_inv, mk; cbn. rewrite Ia. repeat split; auto; try lia; try discriminate.
+    + destruct vb as [m b|zy].
+      * destruct op; cbn in Sh; try discriminate; cbn; exact I.
+      * pose proof (val_ok_cv _ _ _ Vb Ira Cy) as ->.
+        assert (eval_bin op (VInt x) (VInt y) = Ok (VInt v)) as ->.
+        { cbn [eval_bin].
+          destruct op; cbn [is_shift] in Sh; try discriminate; cbn [int_fold] in F; cbn [eval_int_bin];
+            unfold fold_limit in F; unfold int_shift_limit;
+            destruct (y <? 0) eqn:Y0; cbn [orb] in F; try discriminate;
+            destruct (4096 <? y) eqn:Y1; try discriminate;
+            (destruct (65536 <? y) eqn:Y2; [lia|]); congruence. }
+        cbn. rewrite Ia. repeat split; auto; try lia. intros _ c [= <-]; reflexivity.
+  - revert H. destruct (aint la && match op with Sub => true | _ => false end) eqn:S3; [discriminate|].
+    intros [= <- <- <-]. split.
+    + unfold ann_inv; cbn. repeat split; try lia; auto.
+    + destruct va as [n a|zx], vb as [m b|zy].
+      * apply val_ok_bits in Va as (Ea & -> & Wa & Ra). apply val_ok_bits in Vb as (Eb & -> & Wb & Rb).
+        specialize (Hamt Ea). rewrite Eb in Hamt. cbn [eval_bin to_operand]. rewrite Hamt in *.
+        destruct (bits_binop_bits op _ a b Hop Wa Ra Rb) as (r' & -> & Rr). cbn.
+        unfold wfn, inrange in *. repeat split; auto; lia.
+      * apply val_ok_bits in Va as (Ea & -> & Wa & Ra). pose proof (val_ok_int_lt _ _ Vb Ora) as Rb.
+        specialize (Hamt Ea). cbn [eval_bin to_operand].
+        assert (Hk : 0 <= zy < 2 ^ aw la).
+        { pose proof (pow2_le_mono (aw ra) (aw la)). destruct (aex ra); [rewrite Hamt in *; lia|lia]. }
+        destruct (bits_binop_int op _ a zy Hop Wa Ra Hk) as (r' & -> & Rr). cbn.
+        unfold wfn, inrange in *. repeat split; auto; lia.
+      * destruct op; cbn in Sh; try discriminate; cbn; exact I.
+      * pose proof (val_ok_int _ _ Va) as [Pa Ia]. pose proof (val_ok_int _ _ Vb) as [Pb Ib].
+        pose proof (val_ok_int_lt _ _ Va Ola) as Ra.
+        pose proof (div_pow_bound zx zy (aw la) Ra Pb).
+        assert (0 < 2 ^ zy) by (apply pow2_gt0; lia).
+        rewrite Ia in *.
+        destruct op; cbn [is_shift] in Sh; try discriminate; cbn [eval_bin eval_int_bin]; unfold int_shift_limit; (destruct (zy <? 0) eqn:Y0; [lia|]);
+          (destruct (65536 <? zy) eqn:Y1; [exact I|]); cbn [res_ok val_ok aw aint aovf aex acv andb]; repeat split; auto; try lia; try nia; try discriminate.
+  - revert H. destruct (aint la && match op with Sub => true | _ => false end) eqn:S3; [discriminate|].
+    intros [= <- <- <-]. split.
+    + unfold ann_inv; cbn. repeat split; try lia; auto.
+    + destruct va as [n a|zx], vb as [m b|zy].
+      * apply val_ok_bits in Va as (Ea & -> & Wa & Ra). apply val_ok_bits in Vb as (Eb & -> & Wb & Rb).
+        specialize (Hamt Ea). rewrite Eb in Hamt. cbn [eval_bin to_operand]. rewrite Hamt in *.
+        destruct (bits_binop_bits op _ a b Hop Wa Ra Rb) as (r' & -> & Rr). cbn.
+        unfold wfn, inrange in *. repeat split; auto; lia.
+      * apply val_ok_bits in Va as (Ea & -> & Wa & Ra). pose proof (val_ok_int_lt _ _ Vb Ora) as Rb.
+        specialize (Hamt Ea). cbn [eval_bin to_operand].
+        assert (Hk : 0 <= zy < 2 ^ aw la).
+        { pose proof (pow2_le_mono (aw ra) (aw la)). destruct (aex ra); [rewrite Hamt in *; lia|lia]. }
+        destruct (bits_binop_int op _ a zy Hop Wa Ra Hk) as (r' & -> & Rr). cbn.
+        unfold wfn, inrange in *. repeat split; auto; lia.
+      * destruct op; cbn in Sh; try discriminate; cbn; exact I.
+      * pose proof (val_ok_int _ _ Va) as [Pa Ia]. pose proof (val_ok_int _ _ Vb) as [Pb Ib].
+        pose proof (val_ok_int_lt _ _ Va Ola) as Ra.
+        pose proof (div_pow_bound zx zy (aw la) Ra Pb).
+        assert (0 < 2 ^ zy) by (apply pow2_gt0; lia).
+        rewrite Ia in *.
+        destruct op; cbn [is_shift] in Sh; try discriminate; cbn [eval_bin eval_int_bin]; unfold int_shift_limit; (destruct (zy <? 0) eqn:Y0; [lia|]);
+          (destruct (65536 <? zy) eqn:Y1; [exact I|]); cbn [res_ok val_ok aw aint aovf aex acv andb]; repeat split; auto; try lia; try nia; try discriminate.
+Qed.
+
+Lemma rule_bin_sound op la ra r cl cr va vb :
+  rule_bin strict' op la ra = Some (r, cl, cr) ->
+  ann_inv la -> ann_inv ra -> aovf la = false -> aovf ra = false ->
+  val_ok la va -> val_ok ra vb ->
+  ann_inv r /\ res_ok r (eval_bin op va vb).
+Proof.
+  destruct (is_shift op) eqn:Sh; [apply rule_bin_sound_shift|apply rule_bin_sound_max]; exact Sh.
+Qed.
+
+Lemma b2z_range b : 0 <= b2z b < 2 ^ 1.
+Proof. destruct b; cbn; lia. Qed.
+
+(* visit_Compare *)
+Lemma rule_cmp_sound op la ra r cl cr va vb :
+  rule_cmp la ra = Some (r, cl, cr) ->
+  ann_inv la -> ann_inv ra -> aovf la = false -> aovf ra = false ->
+  val_ok la va -> val_ok ra vb ->
+  ann_inv r /\ res_ok r (eval_cmp op va vb).
+Proof.
+  intros H Ila Ira Ola Ora Va Vb. unfold rule_cmp in H.
+  destruct (is_struct la || is_struct ra); [discriminate|].
+  destruct (unify la ra false) as [[cl' cr']|] eqn:U; [|discriminate].
+  apply unify_spec in U. injection H as <- <- <-.
+  pose proof Ila as (Pla & _). pose proof Ira as (Pra & _).
+  split.
+  - unfold ann_inv, mk; cbn. repeat split; auto; try lia; try discriminate.
+  - destruct va as [n a|zx], vb as [m b|zy].
+    + apply val_ok_bits in Va as (Ea & -> & Wa & Ra). apply val_ok_bits in Vb as (Eb & -> & Wb & Rb).
+      rewrite Ea, Eb in U. cbn [eval_cmp to_operand spec_cmp]. rewrite U, Z.eqb_refl. cbn.
+      pose proof (b2z_range (cmp op a b)). unfold wfn, inrange. repeat split; auto; lia.
+    + apply val_ok_bits in Va as (Ea & -> & Wa & Ra). pose proof (val_ok_int_lt _ _ Vb Ora) as Rb.
+      rewrite Ea in U. cbn [eval_cmp to_operand spec_cmp].
+      rewrite (int_operand_fit (aw la) zy (aw ra)) by (destruct (aex ra); lia). cbn.
+      pose proof (b2z_range (cmp op a zy)). unfold wfn, inrange. repeat split; auto; lia.
+    + apply val_ok_bits in Vb as (Eb & -> & Wb & Rb). pose proof (val_ok_int_lt _ _ Va Ola) as Ra.
+      rewrite Eb in U. cbn [eval_cmp to_operand spec_cmp].
+      rewrite (int_operand_fit (aw ra) zx (aw la)) by (destruct (aex la); lia). cbn.
+      pose proof (b2z_range (cmp (swap_cmp op) b zx)). unfold wfn, inrange. repeat split; auto; lia.
+    + pose proof (val_ok_int _ _ Va) as [Pa Ia]. pose proof (val_ok_int _ _ Vb) as [Pb Ib].
+      cbn. rewrite Ia, Ib. pose proof (b2z_range (cmp op zx zy)). repeat split; auto; try lia; discriminate.
+Qed.
+
+Lemma aw_enf c a : aw (enf_ann c a) = if amut a && negb (aex a) then c else aw a.
+Proof. unfold enf_ann. destruct (amut a && negb (aex a)); reflexivity. Qed.
+
+(* visit_IfExp: whichever branch is taken, its value has the type given to the if-expression *)
+Lemma rule_if_sound rc la ra r cl cr :
+  rule_if strict' rc la ra = Some (r, cl, cr) ->
+  ann_inv la -> ann_inv ra -> aovf la = false -> aovf ra = false ->
+  ann_inv r /\ (forall v, val_ok la v -> val_ok r v) /\ (forall v, val_ok ra v -> val_ok r v).
+Proof.
+  intros H Ila Ira Ola Ora. unfold rule_if in H.
+  destruct (is_struct rc || is_struct la || is_struct ra); [discriminate|].
+  destruct (unify la ra true) as [[cl' cr']|] eqn:U; [|discriminate].
+  cbn [andb] in H.
+  destruct (negb (aex la) && negb (aex ra) && (aw la <? aw ra)) eqn:S5; [discriminate|].
+  destruct (negb (eqb (aex la) (aex ra)) &&
+            negb (aw match cl' with Some c => enf_ann c la | None => la end =?
+                  aw match cr' with Some c => enf_ann c ra | None => ra end)) eqn:S10; [discriminate|].
+  injection H as <- <- <-.
+  pose proof Ila as (Pla & Ila2 & Ila3 & Ila4). pose proof Ira as (Pra & Ira2 & Ira3 & Ira4).
+  unfold unify in U.
+  assert (HW : let w := aw match cl' with Some c => enf_ann c la | None => la end in
+               0 < w /\ (aex la = true -> w = aw la) /\ (aex ra = true -> w = aw ra) /\
+               (aex la = false -> aw la <= w) /\ (aex ra = false -> aw ra <= w)).
+  { cbn zeta. destruct (aex la) eqn:El, (aex ra) eqn:Er; cbn [negb andb eqb] in *.
+    - destruct (aw la =? aw ra) eqn:E; [|discriminate]. injection U as <- <-. repeat split; auto; try discriminate; lia.
+    - destruct (aw la <? aw ra) eqn:E; [discriminate|]. injection U as <- <-. repeat split; auto; try discriminate; lia.
+    - destruct (aw ra <? aw la) eqn:E; [discriminate|]. injection U as <- <-.
+      rewrite aw_enf in *. rewrite El in *. cbn [negb] in *. rewrite andb_true_r in *.
+      destruct (amut la); repeat split; auto; try discriminate; lia.
+    - destruct (aw la =? aw ra) eqn:E.
+      + injection U as <- <-. repeat split; auto; try discriminate; lia.
+      + destruct (aw ra <=? aw la) eqn:E2.
+        * injection U as <- <-. rewrite aw_enf. destruct (amut la && negb (aex la)); repeat split; auto; try discriminate; lia.
+        * lia. }
+  cbn zeta in HW. set (w := aw match cl' with Some c => enf_ann c la | None => la end) in *.
+  destruct HW as (Pw & W1 & W2 & W3 & W4).
+  split; [|split].
+  - unfold ann_inv; cbn. repeat split; auto.
+    intros Ex. apply orb_false_elim in Ex as [Exl Exr]. rewrite Ila2; auto.
+  - intros [n u|z] Hv.
+    + apply val_ok_bits in Hv as (Ea & -> & Wa & Ra). cbn. rewrite Ea. pose proof (W1 Ea). unfold wfn, inrange in *. repeat split; auto; lia.
+    + pose proof (val_ok_int _ _ Hv) as [Pz Iz]. pose proof (val_ok_int_lt _ _ Hv Ola) as Rz.
+      cbn. rewrite Iz. repeat split; auto; try discriminate.
+      intros _. destruct (aex la) eqn:El.
+      * rewrite W1 by auto. lia.
+      * pose proof (pow2_le_mono (aw la) w ltac:(specialize (W3 eq_refl); lia)). lia.
+  - intros [n u|z] Hv.
+    + apply val_ok_bits in Hv as (Ea & -> & Wa & Ra). cbn. rewrite Ea, orb_true_r. pose proof (W2 Ea). unfold wfn, inrange in *. repeat split; auto; lia.
+    + pose proof (val_ok_int _ _ Hv) as [Pz Iz]. pose proof (val_ok_int_lt _ _ Hv Ora) as Rz.
+      cbn. rewrite Iz, orb_true_r. repeat split; auto; try discriminate.
+      intros _. destruct (aex ra) eqn:Er.
+      * rewrite W2 by auto. lia.
+      * pose proof (pow2_le_mono (aw ra) w ltac:(specialize (W4 eq_refl); lia)). lia.
+Qed.
+
+Lemma res_ok_weaken a b r : (forall v, val_ok a v -> val_ok b v) -> res_ok a r -> res_ok b r.
+Proof. intros H. destruct r as [v|[]]; cbn; auto. Qed.
+
+Lemma mod2_range x : 0 <= x mod 2 < 2 ^ 1.
+Proof. pose proof (Z.mod_pos_bound x 2 ltac:(lia)). cbn; lia. Qed.
+
+(* ------------------------------------------------------------------------------------------ *)
+(* 5. soundness of the (strict) checker for expressions                                         *)
+Definition sound_at (e : expr) : Prop :=
+  forall E st a l, tc strict' E e = Some (a, l) -> castfree e = true -> env_ok E st ->
+    ann_inv a /\ res_ok a (eval (tsig E) st e).
+
+Lemma sound_sig s p : sound_at (ESig s p).
+Proof.
+  intros E st a l Htc Hcf Henv. cbn [tc] in Htc. cbn [eval].
+  destruct (lookup_sig (tsig E) s p) as [f|] eqn:L; [|discriminate].
+  destruct (sig_nodes (tsig E) s (tl (rev (prefixes p)))); [|discriminate].
+  destruct (wf_width (fw f)) eqn:W; [|discriminate]. injection Htc as <- <-.
+  unfold wf_width in W. split.
+  - unfold ann_inv, sig_ann; cbn. repeat split; try lia; discriminate.
+  - cbn. pose proof (Z.mod_pos_bound (sigv st s / 2 ^ flo f) (2 ^ fw f) ltac:(apply pow2_gt0; lia)).
+    unfold wfn, inrange. repeat split; auto; lia.
+Qed.
+
+Lemma lit_ann_ok z : 0 <= z -> ann_inv (lit_ann z) /\ val_ok (lit_ann z) (VInt z).
+Proof.
+  intros Hz. pose proof (lit_width z Hz) as (L1 & L2 & _). split.
+  - unfold ann_inv, lit_ann, mk; cbn. repeat split; auto; try lia; discriminate.
+  - cbn. repeat split; auto. intros _ c [= <-]; reflexivity.
+Qed.
+
+Lemma sound_lit z : sound_at (ELit z) /\ sound_at (EFree z).
+Proof.
+  split; intros E st a l Htc Hcf Henv; cbn [tc] in Htc; cbn [eval];
+    (destruct (z <? 0) eqn:Z0; [discriminate|]); injection Htc as <- <-;
+    destruct (lit_ann_ok z ltac:(lia)); split; auto.
+Qed.
+
+Lemma sound_sized n z : sound_at (ESized n z).
+Proof.
+  intros E st a l Htc Hcf Henv. cbn [tc] in Htc. cbn [eval castfree] in *.
+  destruct ((z <? 0) || negb (wf_width n)) eqn:C; [discriminate|]. injection Htc as <- <-.
+  unfold wf_width in C. assert (Hn : 1 <= n < 1024) by lia. assert (Hz : 0 <= z < 2 ^ n) by lia.
+  split.
+  - unfold ann_inv, mk; cbn. repeat split; try lia; discriminate.
+  - unfold eval_cast, spec_init. cbn [to_operand].
+    destruct ((n <? 1) || (1024 <=? n)) eqn:E1; [lia|]. cbn [spec_store]. unfold fits, vlo, vhi.
+    assert (0 <= 2 ^ (n - 1)) by (apply Z.pow_nonneg; lia).
+    destruct ((- 2 ^ (n - 1) <=? z) && (z <=? 2 ^ n - 1)) eqn:E2; [|lia]. cbn.
+    rewrite Z.mod_small by lia. unfold wfn, inrange. repeat split; auto; lia.
+Qed.
+
+Lemma rule_bin_inv op la ra r cl cr :
+  rule_bin strict' op la ra = Some (r, cl, cr) -> ann_inv la -> ann_inv ra -> ann_inv r.
+Proof.
+  intros H (Pla & Ila2 & _) (Pra & Ira2 & _). unfold rule_bin in H.
+  destruct (is_struct la || is_struct ra || is_div op); [discriminate|].
+  destruct (match (if is_shift op then Some (None, None) else unify la ra false) with Some p => Some p | None => None end)
+    as [[cl' cr']|] eqn:U.
+  2: { destruct (is_shift op); [discriminate|]. destruct (unify la ra false); discriminate. }
+  assert (U' : (if is_shift op then Some (None, None) else unify la ra false) = Some (cl', cr')).
+  { destruct (is_shift op); [exact U|]. destruct (unify la ra false); [exact U|discriminate]. }
+  rewrite U' in H. clear U U'.
+  destruct (strict' 0%nat && is_shift op && aex la && negb (if aex ra then aw ra =? aw la else aw ra <=? aw la)); [discriminate|].
+  assert (Hmi : (if is_shift op then aex la else aex la || aex ra) = false ->
+                (if is_shift op then aint la else aint la && aint ra) = true).
+  { destruct (is_shift op); [auto|]. intros Ex. apply orb_false_elim in Ex as [? ?]. rewrite Ila2, Ira2; auto. }
+  assert (Hw : 0 < (if is_shift op then aw la else Z.max (aw la) (aw ra))) by (destruct (is_shift op); lia).
+  destruct (acv la) as [x|]; [destruct (acv ra) as [y|]|].
+  - destruct (int_fold op x y) as [v|]; [|discriminate]. cbn [andb] in H.
+    destruct ((if is_shift op then aex la else aex la || aex ra) || (v <? 0)) eqn:C; [discriminate|].
+    injection H as <- <- <-. apply orb_false_elim in C as [C1 C2].
+    pose proof (nbits_of_pos v). unfold ann_inv, mk; cbn. rewrite C1. repeat split; auto; discriminate.
+  - destruct (strict' 3%nat && (if is_shift op then aint la else aint la && aint ra) && match op with Sub => true | _ => false end); [discriminate|].
+    injection H as <- <- <-. unfold ann_inv; cbn. repeat split; auto.
+  - destruct (strict' 3%nat && (if is_shift op then aint la else aint la && aint ra) && match op with Sub => true | _ => false end); [discriminate|].
+    injection H as <- <- <-. unfold ann_inv; cbn. repeat split; auto.
+Qed.
+
+Lemma okc_true (r : typed) : okc strict' r = true -> aovf (fst r) = false.
+Proof. unfold okc. cbn. destruct (aovf (fst r)); [discriminate|reflexivity]. Qed.
+
+Lemma sound_bin op a b : sound_at a -> sound_at b -> sound_at (EBin op a b).
+Proof.
+  intros IHa IHb E st r0 l Htc Hcf Henv. cbn [tc] in Htc. cbn [eval castfree] in *.
+  apply andb_prop in Hcf as [Hca Hcb].
+  destruct (tc strict' E a) as [ra|] eqn:Ta; [|discriminate].
+  destruct (tc strict' E b) as [rb|] eqn:Tb; [|discriminate].
+  destruct (okc strict' ra && okc strict' rb) eqn:Ok; [|discriminate]. cbn [negb] in Htc.
+  apply andb_prop in Ok as [Oa Ob]. apply okc_true in Oa, Ob.
+  destruct (rule_bin strict' op (fst ra) (fst rb)) as [[[r cl] cr]|] eqn:R; [|discriminate].
+  destruct (enforce_ok strict' cl ra && enforce_ok strict' cr rb); [|discriminate]. injection Htc as <- <-.
+  destruct ra as [ra la], rb as [rb lb]. cbn [fst] in *.
+  destruct (IHa E st ra la Ta Hca Henv) as [Ia Ra]. destruct (IHb E st rb lb Tb Hcb Henv) as [Ib Rb].
+  split.
+  - eapply rule_bin_inv; eauto.
+  - apply (res_ok_bind ra); [exact Ra|]. intros va _ Va. apply (res_ok_bind rb); [exact Rb|]. intros vb _ Vb.
+    eapply rule_bin_sound; eauto.
+Qed.
+
+Lemma sound_cmp op a b : sound_at a -> sound_at b -> sound_at (ECmp op a b).
+Proof.
+  intros IHa IHb E st r0 l Htc Hcf Henv. cbn [tc] in Htc. cbn [eval castfree] in *.
+  apply andb_prop in Hcf as [Hca Hcb].
+  destruct (tc strict' E a) as [ra|] eqn:Ta; [|discriminate].
+  destruct (tc strict' E b) as [rb|] eqn:Tb; [|discriminate].
+  destruct (okc strict' ra && okc strict' rb) eqn:Ok; [|discriminate]. cbn [negb] in Htc.
+  apply andb_prop in Ok as [Oa Ob]. apply okc_true in Oa, Ob.
+  destruct (rule_cmp (fst ra) (fst rb)) as [[[r cl] cr]|] eqn:R; [|discriminate].
+  destruct (enforce_ok strict' cl ra && enforce_ok strict' cr rb); [|discriminate]. injection Htc as <- <-.
+  destruct ra as [ra la], rb as [rb lb]. cbn [fst] in *.
+  destruct (IHa E st ra la Ta Hca Henv) as [Ia Ra]. destruct (IHb E st rb lb Tb Hcb Henv) as [Ib Rb].
+  split.
+  - unfold rule_cmp in R. destruct (is_struct ra || is_struct rb); [discriminate|].
+    destruct (unify ra rb false) as [[? ?]|]; [|discriminate]. injection R as <- _ _.
+    unfold ann_inv, mk; cbn. repeat split; auto; try lia; discriminate.
+  - apply (res_ok_bind ra); [exact Ra|]. intros va _ Va. apply (res_ok_bind rb); [exact Rb|]. intros vb _ Vb.
+    eapply rule_cmp_sound; eauto.
+Qed.
+
+Lemma sound_inv a : sound_at a -> sound_at (EInv a).
+Proof.
+  intros IHa E st r0 l Htc Hcf Henv. cbn [tc] in Htc. cbn [eval castfree] in *.
+  destruct (tc strict' E a) as [[ra la]|] eqn:Ta; [|discriminate]. cbn [fst] in Htc.
+  destruct (is_struct ra); [discriminate|]. cbn [andb] in Htc.
+  destruct (aint ra) eqn:Ai; [discriminate|]. injection Htc as <- <-.
+  destruct (IHa E st ra la Ta Hcf Henv) as [(Pa & I2 & I3 & I4) Ra].
+  assert (Ex : aex ra = true) by (destruct (aex ra); [reflexivity|rewrite I2 in Ai; auto; discriminate]).
+  split.
+  - unfold ann_inv; cbn. rewrite Ex. repeat split; auto; discriminate.
+  - apply (res_ok_bind ra); [exact Ra|]. intros [n u|z] _ Va.
+    + apply val_ok_bits in Va as (_ & -> & Wa & Ua). cbn. pose proof (spec_invert_range _ _ Wa Ua).
+      unfold wfn, inrange in *. repeat split; auto; lia.
+    + apply val_ok_int in Va as [_ Va]. congruence.
+Qed.
+
+Lemma sound_ext a n : sound_at a -> sound_at (EZext n a) /\ sound_at (ESext n a) /\ sound_at (ETrunc n a).
+Proof.
+  intros IHa. split; [|split]; intros E st r0 l Htc Hcf Henv; cbn [tc] in Htc; cbn [eval castfree] in *;
+    (destruct (tc strict' E a) as [[ra la]|] eqn:Ta; [|discriminate]); cbn [fst] in Htc.
+  - destruct (is_struct ra || (n <? aw ra) || (strict' 6%nat && negb (n <? 1024)) || negb (okc strict' (ra, la))) eqn:C; [discriminate|].
+    injection Htc as <- <-. cbn in C. destruct (IHa E st ra la Ta Hcf Henv) as [(Pa & _) Ra].
+    split; [unfold ann_inv, mk; cbn; repeat split; try lia; discriminate|].
+    apply (res_ok_bind ra); [exact Ra|]. intros [m u|z] _ Va; [|exact I].
+    apply val_ok_bits in Va as (_ & -> & Wa & Ua). cbn [eval_ext]. rewrite zext_ok' by (auto; lia). cbn.
+    pose proof (pow2_le_mono (aw ra) n ltac:(lia)). unfold wfn, inrange in *. repeat split; auto; lia.
+  - destruct (is_struct ra || (n <? aw ra) || (strict' 6%nat && negb (n <? 1024)) || negb (okc strict' (ra, la))) eqn:C; [discriminate|].
+    injection Htc as <- <-. cbn in C. destruct (IHa E st ra la Ta Hcf Henv) as [(Pa & _) Ra].
+    split; [unfold ann_inv, mk; cbn; repeat split; try lia; discriminate|].
+    apply (res_ok_bind ra); [exact Ra|]. intros [m u|z] _ Va; [|exact I].
+    apply val_ok_bits in Va as (_ & -> & Wa & Ua). cbn [eval_ext]. rewrite sext_ok' by (auto; lia). cbn.
+    pose proof (Z.mod_pos_bound (spec_sint (aw ra) u) (2 ^ n) ltac:(apply pow2_gt0; lia)).
+    unfold wfn, inrange in *. repeat split; auto; lia.
+  - destruct (is_struct ra || (aw ra <? n) || (n <? 1) || negb (okc strict' (ra, la))) eqn:C; [discriminate|].
+    injection Htc as <- <-. destruct (IHa E st ra la Ta Hcf Henv) as [(Pa & _) Ra].
+    split; [unfold ann_inv, mk; cbn; repeat split; try lia; discriminate|].
+    apply (res_ok_bind ra); [exact Ra|]. intros [m u|z] _ Va; [|exact I].
+    apply val_ok_bits in Va as (_ & -> & Wa & Ua). cbn [eval_ext]. unfold wfn in Wa. rewrite trunc_ok' by lia. cbn.
+    pose proof (Z.mod_pos_bound u (2 ^ n) ltac:(apply pow2_gt0; lia)).
+    unfold wfn, inrange in *. repeat split; auto; lia.
+Qed.
+
+Lemma sound_red op a : sound_at a -> sound_at (ERed op a).
+Proof.
+  intros IHa E st r0 l Htc Hcf Henv. cbn [tc] in Htc. cbn [eval castfree] in *.
+  destruct (tc strict' E a) as [[ra la]|] eqn:Ta; [|discriminate]. cbn [fst] in Htc.
+  destruct (is_struct ra || negb (okc strict' (ra, la))); [discriminate|]. injection Htc as <- <-.
+  destruct (IHa E st ra la Ta Hcf Henv) as [_ Ra].
+  split; [unfold ann_inv, mk; cbn; repeat split; try lia; discriminate|].
+  apply (res_ok_bind ra); [exact Ra|]. intros [m u|z] _ Va; [|exact I].
+  cbn [eval_red res_ok]. destruct op; cbn [h_reduce_and h_reduce_or h_reduce_xor fst snd val_ok mk aw aex].
+  - pose proof (b2z_range (u =? Z.shiftl 1 m - 1)). unfold wfn, inrange. repeat split; auto; lia.
+  - pose proof (b2z_range (negb (u =? 0))). unfold wfn, inrange. repeat split; auto; lia.
+  - replace (Z.land (popcount_loop (Z.to_nat m) u 0) 1) with ((popcount_loop (Z.to_nat m) u 0) mod 2).
+    + pose proof (mod2_range (popcount_loop (Z.to_nat m) u 0)). unfold wfn, inrange. repeat split; auto; lia.
+    + symmetry. change 1 with (Z.ones 1) at 1. rewrite Z.land_ones by lia. reflexivity.
+Qed.
+
+Lemma sound_if c a b : sound_at c -> sound_at a -> sound_at b -> sound_at (EIf c a b).
+Proof.
+  intros IHc IHa IHb E st r0 l Htc Hcf Henv. cbn [tc] in Htc. cbn [eval castfree] in *.
+  apply andb_prop in Hcf as [Hcf Hcb]. apply andb_prop in Hcf as [Hcc Hca].
+  destruct (tc strict' E c) as [[rc lc]|] eqn:Tc; [|discriminate].
+  destruct (tc strict' E a) as [[ra la]|] eqn:Ta; [|discriminate].
+  destruct (tc strict' E b) as [[rb lb]|] eqn:Tb; [|discriminate].
+  destruct (okc strict' (rc, lc) && okc strict' (ra, la) && okc strict' (rb, lb)) eqn:Ok; [|discriminate]. cbn [negb fst] in Htc.
+  apply andb_prop in Ok as [Ok Ob]. apply andb_prop in Ok as [Oc Oa]. apply okc_true in Oa, Ob. cbn [fst] in *.
+  destruct (rule_if strict' rc ra rb) as [[[r cl] cr]|] eqn:R; [|discriminate].
+  destruct (enforce_ok strict' cl (ra, la) && enforce_ok strict' cr (rb, lb)); [|discriminate]. injection Htc as <- <-.
+  destruct (IHc E st rc lc Tc Hcc Henv) as [_ Rc].
+  destruct (IHa E st ra la Ta Hca Henv) as [Ia Ra]. destruct (IHb E st rb lb Tb Hcb Henv) as [Ib Rb].
+  destruct (rule_if_sound rc ra rb r cl cr R Ia Ib Oa Ob) as (Ir & Ha & Hb).
+  split; [exact Ir|].
+  apply (res_ok_bind rc); [exact Rc|]. intros vc _ _.
+  destruct (truthy vc); [apply (res_ok_weaken ra)|apply (res_ok_weaken rb)]; auto.
+Qed.
+
+Lemma sound_tmp i : sound_at (ETmp i).
+Proof.
+  intros E st r0 l Htc Hcf [Ht _]. cbn [tc] in Htc. cbn [eval].
+  destruct (ttmp E i) as [[[w ex] mi]|] eqn:T; [|discriminate]. injection Htc as <- <-.
+  destruct (Ht i w ex mi T) as (Pw & Hm & Hv). split.
+  - unfold ann_inv; cbn. repeat split; auto; discriminate.
+  - destruct (tmpv st i) as [v|] eqn:V; cbn; [apply Hv; reflexivity|exact I].
+Qed.
+
+Lemma sound_loop i : sound_at (ELoop i).
+Proof.
+  intros E st r0 l Htc Hcf [_ Hl]. cbn [tc] in Htc. cbn [eval].
+  destruct (tloop E i) as [w|] eqn:T; [|discriminate]. injection Htc as <- <-.
+  destruct (Hl i w T) as (Pw & Hv). split.
+  - unfold ann_inv, mk; cbn. repeat split; auto; discriminate.
+  - destruct (loopv st i) as [z|] eqn:V; cbn; [|exact I]. specialize (Hv z eq_refl). repeat split; auto; try lia; discriminate.
+Qed.
+
+Lemma sound_cast n a : sound_at (ECast n a).
+Proof. intros E st r0 l Htc Hcf. cbn in Hcf. discriminate. Qed.
+
+Lemma sound_idx a i : sound_at a -> sound_at i -> sound_at (EIdx a i).
+Proof.
+  intros IHa IHi E st r0 l Htc Hcf Henv. cbn [tc] in Htc. cbn [eval castfree] in *.
+  apply andb_prop in Hcf as [Hca Hci].
+  destruct (tc strict' E a) as [[ra la]|] eqn:Ta; [|discriminate].
+  destruct (tc strict' E i) as [[ri li]|] eqn:Ti; [|discriminate]. cbn [fst] in Htc. cbn zeta in Htc.
+  destruct (negb (asig ra) || is_struct ra || is_struct ri || negb (okc strict' (ra, la))); [discriminate|].
+  destruct (index_ext (aw ra) ri true) as [c|]; [|discriminate].
+  destruct (match acv ri with Some k => (0 <=? k) && (k <? aw ra) | None => true end && enforce_ok strict' c (ri, li)); [|discriminate].
+  injection Htc as <- <-.
+  destruct (IHa E st ra la Ta Hca Henv) as [_ Ra]. destruct (IHi E st ri li Ti Hci Henv) as [_ Ri].
+  split; [unfold ann_inv, mk; cbn; repeat split; try lia; discriminate|].
+  apply (res_ok_bind ra); [exact Ra|]. intros va _ Va. apply (res_ok_bind ri); [exact Ri|]. intros vi _ Vi.
+  destruct va as [n u|z]; [|exact I]. cbn [eval_index spec_getitem].
+  destruct ((0 <=? value_int vi) && (value_int vi <? n)); [|exact I]. cbn.
+  pose proof (mod2_range (u / 2 ^ value_int vi)). unfold wfn, inrange. repeat split; auto; lia.
+Qed.
+
+Lemma slice_width_sound E st rl rh lo hi wA w zl zh :
+  slice_width strict' (tc strict' E) wA rl rh lo hi = Some w ->
+  ann_inv rl -> ann_inv rh -> val_ok rl (VInt zl) -> val_ok rh (VInt zh) ->
+  eval (tsig E) st lo = Ok (VInt zl) -> eval (tsig E) st hi = Ok (VInt zh) ->
+  0 < w /\ zh - zl = w.
+Proof.
+  intros H Il Ih Vl Vh El Eh. unfold slice_width in H.
+  assert (Stride : match hi with
+      | EBin Add x y =>
+          if strict' 12%nat && negb (match y with ELit _ | EFree _ => true | _ => false end) then None else
+          match tc strict' E y with
+          | Some ry => match acv (fst ry) with
+                       | Some k => if expr_eqb lo x && (0 <? k) then Some k else None
+                       | None => None end
+          | None => None
+          end
+      | _ => None
+      end = Some w -> 0 < w /\ zh - zl = w).
+  { clear H. intros H. destruct hi; try discriminate. destruct op; try discriminate. cbn [andb] in H.
+    assert (G : forall k', (hi2 = ELit k' \/ hi2 = EFree k') -> 0 < w /\ zh - zl = w).
+    { intros k' Hy. assert (T : tc strict' E hi2 = if k' <? 0 then None else Some (lit_ann k', [])) by (destruct Hy as [-> | ->]; reflexivity).
+      assert (V : eval (tsig E) st hi2 = Ok (VInt k')) by (destruct Hy as [-> | ->]; reflexivity).
+      assert (H' : match tc strict' E hi2 with
+                   | Some ry => match acv (fst ry) with
+                                | Some k => if expr_eqb lo hi1 && (0 <? k) then Some k else None
+                                | None => None end
+                   | None => None end = Some w) by (destruct Hy as [-> | ->]; exact H).
+      rewrite T in H'. destruct (k' <? 0); [discriminate|]. cbn [fst lit_ann mk acv] in H'.
+      destruct (expr_eqb lo hi1 && (0 <? k')) eqn:C; [|discriminate]. injection H' as <-.
+      apply andb_prop in C as [C1 C2]. apply expr_eqb_eq in C1. subst hi1.
+      cbn [eval] in Eh. rewrite El, V in Eh. cbn in Eh. injection Eh as <-. lia. }
+    destruct hi2; try discriminate; eapply G; eauto. }
+  destruct (acv rl) as [l|] eqn:Cl; [destruct (acv rh) as [h|] eqn:Ch|]; auto.
+  destruct ((0 <=? l) && (l <? h) && (h <=? wA)) eqn:C; [|discriminate]. injection H as <-.
+  pose proof (val_ok_cv _ _ _ Vl Il Cl). pose proof (val_ok_cv _ _ _ Vh Ih Ch). lia.
+Qed.
+
+Lemma slice_width_pos chk tcf wA rl rh lo hi w : slice_width chk tcf wA rl rh lo hi = Some w -> 0 < w.
+Proof.
+  unfold slice_width. intros SW.
+  assert (Stride : match hi with
+      | EBin Add x y =>
+          if chk 12%nat && negb (match y with ELit _ | EFree _ => true | _ => false end) then None else
+          match tcf y with
+          | Some ry => match acv (fst ry) with
+                       | Some k => if expr_eqb lo x && (0 <? k) then Some k else None
+                       | None => None end
+          | None => None
+          end
+      | _ => None
+      end = Some w -> 0 < w).
+  { clear SW. intros H. destruct hi; try discriminate. destruct op; try discriminate.
+    destruct (chk 12%nat && negb match hi2 with ELit _ | EFree _ => true | _ => false end); [discriminate|].
+    destruct (tcf hi2) as [ry|]; [|discriminate]. destruct (acv (fst ry)); [|discriminate].
+    destruct (expr_eqb lo hi1 && (0 <? z)) eqn:C; [|discriminate]. injection H as <-. lia. }
+  destruct (acv rl) as [l0|]; [destruct (acv rh) as [h0|]|]; auto.
+  destruct ((0 <=? l0) && (l0 <? h0) && (h0 <=? wA)) eqn:C; [|discriminate]. injection SW as <-. lia.
+Qed.
+
+Lemma sound_slice a lo hi : sound_at a -> sound_at lo -> sound_at hi -> sound_at (ESlice a lo hi).
+Proof.
+  intros IHa IHl IHh E st r0 l Htc Hcf Henv. cbn [tc] in Htc. cbn [eval castfree] in *.
+  apply andb_prop in Hcf as [Hcf Hch]. apply andb_prop in Hcf as [Hca Hcl].
+  destruct (tc strict' E a) as [[ra la]|] eqn:Ta; [|discriminate].
+  destruct (tc strict' E lo) as [[rl ll]|] eqn:Tl; [|discriminate].
+  destruct (tc strict' E hi) as [[rh lh]|] eqn:Th; [|discriminate]. cbn [fst] in Htc. cbn zeta in Htc.
+  destruct (negb (asig ra) || is_struct ra || is_struct rl || is_struct rh || negb (okc strict' (ra, la))); [discriminate|].
+  cbn [andb] in Htc. destruct (aex rl || aex rh) eqn:S12; [discriminate|]. apply orb_false_elim in S12 as [Exl Exh].
+  destruct (acv ra); [discriminate|].
+  destruct (index_ext (aw ra) rl true) as [c1|]; [|discriminate].
+  destruct (index_ext (aw ra) rh false) as [c2|]; [|discriminate].
+  destruct (slice_width strict' (tc strict' E) (aw ra) rl rh lo hi) as [w|] eqn:SW; [|discriminate].
+  destruct (enforce_ok strict' c1 (rl, ll) && enforce_ok strict' c2 (rh, lh)); [|discriminate]. injection Htc as <- <-.
+  destruct (IHa E st ra la Ta Hca Henv) as [_ Ra].
+  destruct (IHl E st rl ll Tl Hcl Henv) as [Il Rl]. destruct (IHh E st rh lh Th Hch Henv) as [Ih Rh].
+  assert (G : forall va vl vh, eval (tsig E) st lo = Ok vl -> eval (tsig E) st hi = Ok vh ->
+              val_ok ra va -> val_ok rl vl -> val_ok rh vh -> 0 < w /\ res_ok (mk w true false None false false) (eval_slice va vl vh)).
+  { intros va vl vh El Eh Va Vl Vh.
+    destruct (val_ok_implicit _ _ Vl Exl) as [zl ->]. destruct (val_ok_implicit _ _ Vh Exh) as [zh ->].
+    destruct (slice_width_sound E st rl rh lo hi (aw ra) w zl zh SW Il Ih Vl Vh El Eh) as [Pw Hw].
+    split; [exact Pw|]. destruct va as [n u|z]; [|exact I].
+    apply val_ok_bits in Va as (_ & -> & Wa & Ua).
+    cbn [eval_slice spec_getitem step_trivial negb bound value_int]. unfold valid_range.
+    destruct ((0 <=? zl) && (zl <? zh) && (zh <=? aw ra)) eqn:C; [|exact I]. cbn.
+    pose proof (Z.mod_pos_bound (u / 2 ^ zl) (2 ^ (zh - zl)) ltac:(apply pow2_gt0; lia)).
+    unfold wfn, inrange in *. repeat split; auto; lia. }
+  split.
+  - pose proof (slice_width_pos _ _ _ _ _ _ _ _ SW). unfold ann_inv, mk; cbn. repeat split; auto; discriminate.
+  - apply (res_ok_bind ra); [exact Ra|]. intros va _ Va.
+    apply (res_ok_bind rl); [exact Rl|]. intros vl El Vl.
+    apply (res_ok_bind rh); [exact Rh|]. intros vh Eh Vh.
+    apply (G va vl vh El Eh Va Vl Vh).
+Qed.
+
+Definition castfree_list := fix go (l : list expr) : bool := match l with [] => true | x :: r => castfree x && go r end.
+
+Lemma concat_list_sound E st es : Forall sound_at es -> env_ok E st ->
+  forall w ns, tc_list (tc strict' E) (okc strict') es = Some (w, ns) -> castfree_list es = true ->
+    0 <= w /\ (es <> [] -> 0 < w) /\
+    match eval_list (eval (tsig E) st) es with
+    | Ok vs => match bits_list vs with
+               | Some xs => Forall wfpair xs /\ fold_right Z.add 0 (map fst xs) = w
+               | None => True end
+    | Err EValue => False
+    | Err _ => True
+    end.
+Proof.
+  intros HF Henv. induction HF as [|x r Hx Hr IH]; intros w ns Htc Hcf.
+  - cbn in Htc. injection Htc as <- <-. cbn. repeat split; auto; try lia. congruence.
+  - cbn [tc_list] in Htc. cbn [castfree_list] in Hcf. apply andb_prop in Hcf as [Hcx Hcr].
+    destruct (tc strict' E x) as [[rx lx]|] eqn:Tx; [|discriminate].
+    destruct (tc_list (tc strict' E) (okc strict') r) as [[w' ns']|] eqn:Tr; [|discriminate]. cbn [fst] in Htc.
+    destruct (is_struct rx || negb (okc strict' (rx, lx))); [discriminate|]. injection Htc as <- <-.
+    destruct (Hx E st rx lx Tx Hcx Henv) as [(Px & _) Rx].
+    destruct (IH w' ns' eq_refl Hcr) as (Pw & _ & Hev).
+    split; [lia|]. split; [intros _; lia|].
+    cbn [eval_list]. destruct (eval (tsig E) st x) as [v|e] eqn:Ex; cbn [bind]; [|destruct e; cbn in *; auto].
+    cbn [res_ok] in Rx.
+    destruct (eval_list (eval (tsig E) st) r) as [vs|e] eqn:Er; cbn [bind]; [|destruct e; auto].
+    cbn [bits_list]. destruct v as [n u|z]; [|exact I].
+    apply val_ok_bits in Rx as (_ & -> & Wn & Un).
+    destruct (bits_list vs) as [xs|]; [|exact I]. destruct Hev as [Hxs Hsum].
+    split; [constructor; [split; assumption|exact Hxs]|]. cbn. lia.
+Qed.
+
+Lemma sound_concat es : Forall sound_at es -> sound_at (EConcat es).
+Proof.
+  intros HF E st r0 l Htc Hcf Henv. cbn [tc] in Htc. cbn [eval]. change (castfree (EConcat es)) with (castfree_list es) in Hcf.
+  destruct (tc_list (tc strict' E) (okc strict') es) as [[w ns]|] eqn:TL; [|discriminate].
+  destruct (concat_list_sound E st es HF Henv w ns TL Hcf) as (Pw & Pw' & Hev).
+  destruct es as [|x r]; [discriminate|]. cbn [andb] in Htc.
+  destruct (w <? 1024) eqn:W; [|discriminate]. cbn [negb] in Htc. injection Htc as <- <-.
+  specialize (Pw' ltac:(discriminate)).
+  split; [unfold ann_inv, mk; cbn; repeat split; try lia; discriminate|].
+  destruct (eval_list (eval (tsig E) st) (x :: r)) as [vs|e]; cbn [bind]; [|destruct e; auto].
+  unfold eval_concat. destruct (bits_list vs) as [xs|]; [|exact I]. destruct Hev as [Hxs Hsum].
+  destruct (concat_ok' xs Hxs ltac:(lia)) as (u & Hc & Hu). rewrite Hc, Hsum. cbn.
+  unfold wfn, inrange in *. rewrite Hsum in Hu. repeat split; auto; lia.
+Qed.
+
+Theorem tc_sound_gen : forall e, sound_at e.
+Proof.
+  induction e using expr_ind'.
+  - apply sound_sig. - apply sound_lit. - apply sound_sized. - apply sound_lit. - apply sound_cast.
+  - apply sound_bin; assumption. - apply sound_cmp; assumption. - apply sound_inv; assumption.
+  - apply sound_slice; assumption. - apply sound_idx; assumption. - apply sound_concat; assumption.
+  - apply sound_ext; assumption. - apply sound_ext; assumption. - apply sound_ext; assumption.
+  - apply sound_red; assumption. - apply sound_if; assumption. - apply sound_tmp. - apply sound_loop.
+Qed.
+
+(* ------------------------------------------------------------------------------------------ *)
+(* 6. the statement of the property: widths are the real widths, no width error                 *)
+Theorem tc_sound E st e a l :
+  tc strict E e = Some (a, l) -> castfree e = true -> env_ok E st ->
+  eval (tsig E) st e <> Err EValue /\
+  (forall n u, eval (tsig E) st e = Ok (VBits n u) -> n = aw a /\ 0 < n < 1024 /\ 0 <= u < 2 ^ n) /\
+  (forall z, eval (tsig E) st e = Ok (VInt z) -> 0 <= z /\ (aovf a = false -> z < 2 ^ aw a)).
+Proof.
+  intros Htc Hcf Henv. destruct (tc_sound_gen e E st a l Htc Hcf Henv) as [_ R].
+  destruct (eval (tsig E) st e) as [v|er]; cbn in R.
+  - split; [discriminate|]. split.
+    + intros n u [= ->]. cbn in R. unfold wfn, inrange in R. intuition.
+    + intros z [= ->]. cbn in R. intuition.
+  - split; [destruct er; try discriminate; contradiction|]. split; intros; discriminate.
+Qed.
+
+(* sub-expressions *)
+Definition children (e : expr) : list expr :=
+  match e with
+  | ESig _ _ | ELit _ | ESized _ _ | EFree _ | ETmp _ | ELoop _ => []
+  | ECast _ a | EInv a | EZext _ a | ESext _ a | ETrunc _ a | ERed _ a => [a]
+  | EBin _ a b | ECmp _ a b | EIdx a b => [a; b]
+  | ESlice a b c | EIf a b c => [a; b; c]
+  | EConcat es => es
+  end.
+
+Inductive subexpr : expr -> expr -> Prop :=
+| sub_refl e : subexpr e e
+| sub_step e' c e : subexpr e' c -> In c (children e) -> subexpr e' e.
+
+Lemma tc_list_in chk E es w ns : tc_list (tc chk E) (okc chk) es = Some (w, ns) ->
+  forall c, In c es -> exists r, tc chk E c = Some r.
+Proof.
+  revert w ns. induction es as [|x r IH]; intros w ns H c Hc; [contradiction|].
+  cbn [tc_list] in H. destruct (tc chk E x) as [rx|] eqn:Tx; [|discriminate].
+  destruct (tc_list (tc chk E) (okc chk) r) as [[w' ns']|] eqn:Tr; [|discriminate].
+  destruct Hc as [<-|Hc]; [eauto|]. eapply IH; eauto.
+Qed.
+
+Lemma tc_children chk E e r : tc chk E e = Some r -> forall c, In c (children e) -> exists r', tc chk E c = Some r'.
+Proof.
+  intros H c Hc. destruct e; cbn [children] in Hc; cbn [tc] in H;
+    repeat match goal with
+           | H : In _ [] |- _ => contradiction
+           | H : In _ (_ :: _) |- _ => destruct H as [<- | H]
+           | H : match tc chk E ?x with Some _ => _ | None => _ end = Some _ |- _ =>
+               let T := fresh "T" in destruct (tc chk E x) eqn:T; [|discriminate]
+           end; eauto.
+  (* EConcat *)
+  destruct (tc_list (tc chk E) (okc chk) es) as [[w ns]|] eqn:TL; [|discriminate].
+  eapply tc_list_in; eauto.
+Qed.
+
+Lemma castfree_children e : castfree e = true -> forall c, In c (children e) -> castfree c = true.
+Proof.
+  intros H c Hc. destruct e; cbn [children] in Hc; cbn [castfree] in H; try discriminate;
+    repeat match goal with
+           | H : In _ [] |- _ => contradiction
+           | H : In _ (_ :: _) |- _ => destruct H as [<- | H]
+           | H : _ && _ = true |- _ => apply andb_prop in H as [? ?]
+           end; auto.
+  change (castfree_list es = true) in H. induction es as [|x r IH]; [contradiction|].
+  cbn in H. apply andb_prop in H as [Hx Hr]. destruct Hc as [<-|Hc]; auto.
+Qed.
+
+Theorem tc_sound_sub E st e a l e' :
+  tc strict E e = Some (a, l) -> castfree e = true -> env_ok E st -> subexpr e' e ->
+  exists a' l', tc strict E e' = Some (a', l') /\
+    eval (tsig E) st e' <> Err EValue /\
+    (forall n u, eval (tsig E) st e' = Ok (VBits n u) -> n = aw a' /\ 0 < n < 1024 /\ 0 <= u < 2 ^ n) /\
+    (forall z, eval (tsig E) st e' = Ok (VInt z) -> 0 <= z /\ (aovf a' = false -> z < 2 ^ aw a')).
+Proof.
+  intros Htc Hcf Henv Hs. revert a l Htc Hcf. induction Hs as [e|e' c e Hs IH Hin]; intros a l Htc Hcf.
+  - exists a, l. split; [exact Htc|]. eapply tc_sound; eauto.
+  - destruct (tc_children _ _ _ _ Htc c Hin) as [[a' l'] Tc].
+    eapply IH; eauto. eapply castfree_children; eauto.
+Qed.
+
+(* ------------------------------------------------------------------------------------------ *)
+(* 7. assignment statements                                                                      *)
+Definition compat (L R : ann) : Prop := (aex R = true -> aw R = aw L) /\ (aex R = false -> aw R <= aw L).
+
+Lemma tc_assign_sig E l e E' ns :
+  tc_assign strict' E l e = Some (E', ns) -> (forall i, l <> LTmp i) ->
+  exists le rl r, lhs_expr l = Some le /\ tc strict' E le = Some rl /\ tc strict' E e = Some r /\ E' = E /\
+                  aovf (fst r) = false /\ compat (fst rl) (fst r).
+Proof.
+  intros H Hl. unfold tc_assign in H.
+  destruct (tc strict' E e) as [r|] eqn:Te; [|discriminate]. cbn [andb] in H.
+  destruct (aovf (fst r)) eqn:Ov; [discriminate|].
+  destruct l as [s p|s p lo hi|s p i|i]; try (exfalso; eapply Hl; reflexivity);
+    cbn [lhs_expr] in H |- *;
+    match type of H with match tc strict' E ?le with _ => _ end = _ =>
+      destruct (tc strict' E le) as [rl|] eqn:Tl; [|discriminate]; exists le, rl, r end;
+    (assert (G : E' = E /\ compat (fst rl) (fst r));
+     [|destruct G; repeat split; auto]);
+    cbn zeta in H;
+    (destruct (astr (fst rl)) as [x|], (astr (fst r)) as [y|]; try discriminate;
+     [destruct (Nat.eqb x y && (aw (fst rl) =? aw (fst r))) eqn:C; [|discriminate]; injection H as <- _;
+      apply andb_prop in C as [_ C]; split; [reflexivity|]; split; intros; lia
+     |]);
+    (destruct (negb (aw (fst (if negb (aex (fst r)) && negb (aw (fst r) =? aw (fst rl)) then enforce (Some (aw (fst rl))) r else r)) =? aw (fst rl))) eqn:C1; [discriminate|]);
+    (destruct (negb (aex (fst r)) && (aw (fst rl) <? aw (fst r))) eqn:C2; [discriminate|]);
+    (destruct (negb (aex (fst r)) && negb (aw (fst r) =? aw (fst rl)) && negb (enforce_ok strict' (Some (aw (fst rl))) r)); [discriminate|]);
+    injection H as <- _; (split; [reflexivity|]);
+    (split; intros Ex; rewrite Ex in *; cbn [negb andb] in *; lia).
+Qed.
+
+Lemma store_ok L R v : val_ok R v -> aovf R = false -> compat L R -> wfn (aw L) ->
+  exists u, spec_store (aw L) (to_operand v) = Ok u /\ inrange (aw L) u.
+Proof.
+  intros Hv Ov [C1 C2] Wl. destruct v as [n u|z]; cbn [to_operand spec_store].
+  - apply val_ok_bits in Hv as (Ex & -> & _ & Hu). rewrite (C1 Ex), Z.eqb_refl in *. eauto.
+  - pose proof (val_ok_int_lt _ _ Hv Ov) as Hz.
+    assert (Hz' : 0 <= z < 2 ^ aw L).
+    { unfold wfn in Wl. destruct (aex R) eqn:Ex; [rewrite <- (C1 eq_refl); lia|].
+      specialize (C2 eq_refl). pose proof (pow2_le_mono (aw R) (aw L)). destruct Hv as (? & ?). lia. }
+    unfold fits, vlo, vhi. unfold wfn in Wl. assert (0 <= 2 ^ (aw L - 1)) by (apply Z.pow_nonneg; lia).
+    destruct ((- 2 ^ (aw L - 1) <=? z) && (z <=? 2 ^ aw L - 1)) eqn:F; [|lia].
+    eexists; split; [reflexivity|]. unfold inrange. rewrite Z.mod_small; lia.
+Qed.
+
+Definition castfree_lhs (l : lhs) : bool :=
+  match l with
+  | LSig _ _ | LTmp _ => true
+  | LSlice _ _ lo hi => castfree lo && castfree hi
+  | LIndex _ _ i => castfree i
+  end.
+
+Definition stmt_res_ok (E' : tenv) (r : res state) : Prop :=
+  match r with Ok st' => env_ok E' st' | Err EValue => False | Err _ => True end.
+
+Lemma env_ok_same E st st' : tmpv st' = tmpv st -> loopv st' = loopv st -> env_ok E st -> env_ok E st'.
+Proof. intros Ht Hl [H1 H2]. split; intros; rewrite ?Ht, ?Hl; eauto. Qed.
+
+Lemma res_ok_not_evalue a r : res_ok a r -> r <> Err EValue.
+Proof. destruct r as [|[]]; cbn; try discriminate; contradiction. Qed.
